@@ -41,7 +41,7 @@ WALL_PER_FRAME = 1.0           # wall seconds one deserialize() call may take
 CASE_WALL = 3.0                # wall seconds after which a case is aborted (the loop is blocked)
 MAX_DESER = 400000
 KINDS = [('soup-client', 'pre'), ('soup-client', 'post'), ('soup-server', 'pre'), ('soup-server', 'post'), ('fix', 'pre'), ('fix', 'post')]
-PENDING_TRIAGE = False         # classes that show candidate defects of the unchanged library still being triaged (see hostile_gen)
+PENDING_TRIAGE = os.environ.get('VERIF_PENDING_TRIAGE') == '1'         # classes that show candidate defects of the unchanged library still being triaged (see hostile_gen)
 
 _L = {}
 
@@ -512,6 +512,9 @@ def correspond(ctx, drv, todo):
         if model_cost(log) > 4_000_000:
             ctx.count('corr:skipped-heavy')
             continue
+        if 'MODEL_BOUNDARY' in case['cls']:
+            ctx.count('corr:skipped-model-boundary')
+            continue
         lines.append(c03.model_line(side_of(case), log))
         keep.append((case, res))
     try:
@@ -586,7 +589,9 @@ def build_case(rng, kind, phase, bad, style=None):
     case = {'kind': 'hostile', 'sess': kind, 'phase': phase, 'cls': bad['cls'], 'wants': bad['wants'], 'parts': parts, 'cuts': []}
     stream, spans = stream_of(case)
     total = len(stream)
-    if case['wants'] is not None and case['wants'] > bad['len'] + (total - spans[bad_i][1]) + 400:
+    if 'PENDING_TRIAGE' in bad['cls']:
+        case['wants'] = bad['len']     # (ii-a): the question under triage is exactly whether a reader may wait for such an announcement
+    elif case['wants'] is not None and case['wants'] > bad['len'] + (total - spans[bad_i][1]) + 400:
         case['wants'] = None           # the announcement cannot be satisfied by what the scenario sends: weak clause only
     if style is None:
         styles = ['whole', 'per-frame', 'zone1', 'zone1', 'zone2', 'frame+zone', 'before-last-byte', 'random']
@@ -649,8 +654,8 @@ def gen_cases(ctx, quick):
     per_class = 1 if quick else 6
     for kind, phase in KINDS:
         classes = malformed_for(rng, kind, pending=PENDING_TRIAGE)
-        small = [b for b in classes if b['len'] < 5000]
-        big = [b for b in classes if b['len'] >= 5000]
+        small = [b for b in classes if b['len'] < 5000 or 'MODEL_BOUNDARY' in b['cls']]
+        big = [b for b in classes if b['len'] >= 5000 and 'MODEL_BOUNDARY' not in b['cls']]
         for bad in small:
             for _ in range(per_class):
                 yield build_case(rng, kind, phase, bad)
